@@ -126,6 +126,7 @@ struct Sim {
     callbacks: Callbacks,
     rejected: Arc<Mutex<Vec<ProposalShortId>>>,
     taint: Taint,
+    f2_fixed: bool,
     reported: bool,
     dead: bool,
     // statistics of the case
@@ -222,6 +223,7 @@ impl Sim {
             callbacks,
             rejected,
             taint: Taint::None,
+            f2_fixed: false,
             reported: false,
             dead: false,
             max_pool: 0,
@@ -499,6 +501,11 @@ impl Sim {
     }
 
     fn set_taint(&mut self, t: Taint) {
+        // `f2-fixed` (extra harness argument): remove_entry_and_descendants is repaired in /repo, the F2
+        // pattern no longer excuses anything
+        if t == Taint::F2 && self.f2_fixed {
+            return;
+        }
         if self.taint == Taint::None {
             self.taint = t;
         }
@@ -714,10 +721,17 @@ impl Sim {
                         }
                     }
                 }
-                for y in &s {
-                    if let Some((ps, _)) = before.links.get(y) {
-                        if ps.iter().any(|p| !s.contains(p)) {
-                            self.set_taint(Taint::F2);
+                // (each id is removed with its own descendants, one after the other: the test is per id)
+                for id in &ids {
+                    if before.entries.get(id).map(|e| e.0 != Status::Pending).unwrap_or(false) {
+                        let mut si = Self::closure(&before, *id, false);
+                        si.insert(*id);
+                        for y in &si {
+                            if let Some((ps, _)) = before.links.get(y) {
+                                if ps.iter().any(|p| !si.contains(p)) {
+                                    self.set_taint(Taint::F2);
+                                }
+                            }
                         }
                     }
                 }
@@ -942,7 +956,7 @@ impl<'a> Gen<'a> {
     }
 }
 
-fn run_case(out: &mut Out, rng: &mut Rng, world: &World, n_ops: usize, clean: bool) {
+fn run_case(out: &mut Out, rng: &mut Rng, world: &World, n_ops: usize, clean: bool, f2_fixed: bool) {
     let max_anc = *rng.pick(&[2u64, 3, 3, 4, 5, 25]);
     let max_size = if clean && rng.chance(1, 2) { 1_000_000 } else { *rng.pick(&[600u64, 900, 1500, 2500, 1_000_000]) };
     let min_rbf = *rng.pick(&[1500u64, 1500, 2000, 1000]);
@@ -950,6 +964,7 @@ fn run_case(out: &mut Out, rng: &mut Rng, world: &World, n_ops: usize, clean: bo
     out.begin_case(&format!("anc={max_anc} size={max_size} rbf={min_rbf} clean={}", clean as u8));
     out.op(&format!("cfg {} {} 1000 {} {} {}", max_anc, max_size, min_rbf, HOUR_MS, set_str(0..N_ROOTS)), "ok");
     let mut sim = Sim::new(world, cfg);
+    sim.f2_fixed = f2_fixed;
     let mut g = Gen { rng, next_id: 10, ts: 1000, outs: vec![], clean };
     for r in 0..N_ROOTS {
         for i in 0..ROOT_OUTS {
@@ -1107,7 +1122,7 @@ fn run_case(out: &mut Out, rng: &mut Rng, world: &World, n_ops: usize, clean: bo
     out.count(&format!("case-taint-{:?}", sim.taint));
 }
 
-fn replay_case(out: &mut Out, world: &World, ops: &[String]) {
+fn replay_case(out: &mut Out, world: &World, ops: &[String], f2_fixed: bool) {
     let mut sim: Option<Sim> = None;
     for line in ops {
         let t: Vec<&str> = line.split_whitespace().collect();
@@ -1120,7 +1135,9 @@ fn replay_case(out: &mut Out, world: &World, ops: &[String]) {
                 assert_eq!(t[5], HOUR_MS.to_string(), "expiry is fixed to one hour");
                 assert_eq!(t[3], "1000");
                 out.op(line, "ok");
-                sim = Some(Sim::new(world, cfg));
+                let mut s = Sim::new(world, cfg);
+                s.f2_fixed = f2_fixed;
+                sim = Some(s);
             }
             "dump" => {} // re-emitted by exec after every state-changing op
             _ => {
@@ -1137,9 +1154,10 @@ pub fn run(opts: &Opts) {
     // add_entry panics are caught and reported as an answer; keep stderr quiet
     std::panic::set_hook(Box::new(|_| {}));
     let mut out = Out::new(&opts.out);
+    let f2_fixed = opts.extra.iter().any(|a| a == "f2-fixed");
     if let Some(rp) = &opts.replay {
         let ops = read_replay_ops(rp);
-        replay_case(&mut out, &world, &ops);
+        replay_case(&mut out, &world, &ops, f2_fixed);
     } else {
         let mut rng = Rng::new(opts.seed);
         let cases = (if opts.thorough() { 6000 } else { 500 }) * opts.scale;
@@ -1147,7 +1165,7 @@ pub fn run(opts: &Opts) {
             let n_ops = 8 + rng.below(30) as usize;
             // 60% of the cases avoid the three patterns under which the code is known not to maintain the aggregates
             let clean = c % 5 < 3;
-            run_case(&mut out, &mut rng, &world, n_ops, clean);
+            run_case(&mut out, &mut rng, &world, n_ops, clean, f2_fixed);
         }
     }
     out.finish("pool held >= 4 transactions at some point and >= 2 distinct removal/eviction/replacement paths ran (evict-in-add, rej-anc, commit-conflict, hdr, limit, expire, detach, rbf-replace, rbf-reject)");
